@@ -1,8 +1,9 @@
 #!/bin/bash
 # mk.sh <libdir> <out> <src...> [-- extra] : compile+link a harness against the hooked library
 set -e
+V=$(dirname "$(dirname "$(realpath "$0")")")
 LIB=$1; OUT=$2; shift 2
 REPO=${REPO:-/repo}
-INC="-I$REPO/include -I$REPO/src -I/verif/vrt"
+INC="-I$REPO/include -I$REPO/src -I$V/vrt"
 [ -d "$LIB/cfg" ] && INC="$INC -I$LIB/cfg"
 gcc -O1 -g -w -DMYTH_VERIF -D_GNU_SOURCE $INC -o "$OUT" "$@" "$LIB/libmyth-v.a" -lpthread -ldl -lrt
